@@ -196,3 +196,15 @@ define void @1() comdat($"1") {
 define void @f() comdat($"42") {
   ret void
 }
+;;; ATOM global/unnamed-aliases-and-ifuncs
+@g = global i32 0
+@0 = alias i32, i32* @g
+@1 = ifunc void (), void ()* ()* @res
+@2 = alias i32, i32* @g
+@3 = ifunc void (), void ()* ()* @res
+define void ()* @res() {
+  ret void ()* null
+}
+define void @4() {
+  ret void
+}
